@@ -377,6 +377,12 @@ class YAMLPath:
         segment_type: Optional[PathSegmentTypes] = None
         demarc_stack: List[str] = []
         escape_next: bool = False
+        # Where the text of the segment under construction starts and ends,
+        # and where its (unescaped) quote demarcation opened and closed
+        segment_first_idx: int = -1
+        segment_last_idx: int = -1
+        quote_open_idx: int = -2
+        quote_close_idx: int = -2
         search_inverted: bool = False
         search_method: Optional[PathSearchMethods] = None
         search_attr: str = ""
@@ -479,6 +485,7 @@ class YAMLPath:
                         # Close a matching pair
                         demarc_stack.pop()
                         demarc_count -= 1
+                        quote_close_idx = char_idx
 
                         # Record the element_id when all pairs have closed
                         # unless there is no element_id.
@@ -497,6 +504,8 @@ class YAMLPath:
                             continue
                     else:
                         # Embed a nested, demarcated component
+                        if not segment_id:
+                            quote_open_idx = char_idx
                         demarc_stack.append(char)
                         demarc_count += 1
                 else:
@@ -757,8 +766,14 @@ class YAMLPath:
                         segment_type is PathSegmentTypes.SEARCH
                         and search_method is not None
                 ):
-                    # Undemarcate the search term, if it is so
-                    if segment_id and segment_id[0] in ["'", '"']:
+                    # Undemarcate the search term, if it is so:  its first
+                    # and last characters must be the quotes which opened and
+                    # closed the demarcation, not escaped quote characters
+                    # or the verbatim text of a Regular Expression.
+                    if (segment_id and segment_id[0] in ["'", '"']
+                        and quote_open_idx == segment_first_idx
+                        and quote_close_idx == segment_last_idx
+                    ):
                         leading_mark = segment_id[0]
                         if segment_id[-1] == leading_mark:
                             segment_id = segment_id[1:-1]
@@ -816,6 +831,9 @@ class YAMLPath:
                 seeking_anchor_mark = True
                 continue
 
+            if not segment_id:
+                segment_first_idx = char_idx
+            segment_last_idx = char_idx
             segment_id += char
             seeking_anchor_mark = False
             seeking_collector_operator = False
